@@ -38,6 +38,10 @@ func unhex(s string) string {
 }
 
 func main() {
+	if len(os.Args) > 1 && os.Args[1] == "server" {
+		serverMode()
+		return
+	}
 	in := bufio.NewReaderSize(os.Stdin, 1<<20)
 	out := bufio.NewWriter(os.Stdout)
 	defer out.Flush()
